@@ -10,10 +10,11 @@
   `L D Lᵀ`), `CholCofactor.lean`.
 -/
 import Gama.Lemmas.Ls.CholCofactor
+import Gama.Lemmas.Ls.CholCofSing
 import Gama.Lemmas.Ls.CholExample
 import Gama.Lemmas.LS.GInverse
 namespace Gama.Props.C03
-open Gama Gama.Ls Gama.LS Matrix
+open Gama Gama.Ls Gama.LS Gama.Ls.Chol Matrix
 
 set_option linter.unusedSectionVars false
 
@@ -65,6 +66,59 @@ theorem C03_cholesky_regular (p : Problem K) (a : Answer K) (h : cholSolve p = .
       rw [hi, hj]
       simp only [Bool.and_self, if_true, Nat.add_sub_cancel]
       rw [chol_regular_qbx p s hs hn i j]
+
+/-- **C03 (cholesky, any defect)**: `Q = T Q0 Tᵀ` — what `q_xx` (= `q0_xx`) reports for every index
+    pair — is symmetric and a reflexive generalised inverse of `N = AᵀA`: `N Q N = N`, `Q N Q = Q`;
+    `q_bb` reports `A Q0 Aᵀ`, which equals `A Q Aᵀ`.  Hypotheses as in `C01_cholesky_singular`
+    (rejected pivot exactly 0; `sqrt` exact on the Gram–Schmidt pivots). -/
+theorem C03_cholesky (p : Problem K) (hU : UnambiguousF (cholFact p)) (hsq : GsSqrtExact p)
+    (a : Answer K) (h : cholSolve p = .ok a) :
+    ∃ Q : Matrix (Fin p.n) (Fin p.n) K,
+      Qᵀ = Q ∧ (p.Aᵀ * p.A) * Q * (p.Aᵀ * p.A) = p.Aᵀ * p.A ∧ Q * (p.Aᵀ * p.A) * Q = Q
+      ∧ (∀ i j : Fin p.n, a.qxx (i + 1) (j + 1) = .ok (Q i j) ∧ a.q0xx (i + 1) (j + 1) = .ok (Q i j))
+      ∧ (∀ i j : Fin p.m, a.qbb (i + 1) (j + 1) = .ok ((p.A * Q * p.Aᵀ) i j)) := by
+  unfold cholSolve at h
+  cases hs : Chol.solve p with
+  | error e => rw [hs] at h; simp [Except.map] at h
+  | ok s =>
+    rw [hs] at h
+    have ha : a = s.answer := (Except.ok.inj h).symm
+    subst ha
+    obtain ⟨hm, hnn, hA, _⟩ := solve_shape p s hs
+    obtain ⟨q1, q2, q3, q4⟩ := chol_Q_spec p hU hsq s hs
+    refine ⟨s.Qm p.n, q1, q2, q3, ?_, ?_⟩
+    · intro i j
+      have hi : s.idx (i.val + 1) = true := by simp [Chol.Solved.idx, hnn]
+      have hj : s.idx (j.val + 1) = true := by simp [Chol.Solved.idx, hnn]
+      have : (if s.idx (i.val + 1) && s.idx (j.val + 1) then
+          Except.ok (s.qxx0 (i.val + 1 - 1) (j.val + 1 - 1)) else Except.error ErrKind.NotModelled)
+          = Except.ok (s.Qm p.n i j) := by
+        rw [hi, hj]; simp [Chol.Solved.Qm]
+      exact ⟨this, this⟩
+    · intro i j
+      have hi : s.obs (i.val + 1) = true := by simp [Chol.Solved.obs, hm]
+      have hj : s.obs (j.val + 1) = true := by simp [Chol.Solved.obs, hm]
+      show (if s.obs (i.val + 1) && s.obs (j.val + 1) then
+          Except.ok (s.qbb0 (i.val + 1 - 1) (j.val + 1 - 1)) else Except.error ErrKind.NotModelled) = _
+      rw [hi, hj]
+      simp only [Bool.and_self, if_true, Nat.add_sub_cancel]
+      rw [← q4, chol_qbb0_eq p s hs i j]
+
+/-- non-vacuity (singular): 4-point levelling loop, all unknowns regularised: the model reports
+    `q_xx(1,1) = 5/16`, `q_xx(1,3) = −3/16` = the pseudo-inverse of the loop Laplacian (kernel evaluation) -/
+example : ∃ a, cholSolve (Ex.pSing4 .none) = .ok a ∧ a.defect = 1
+    ∧ a.qxx 1 1 = .ok (5/16) ∧ a.qxx 1 3 = .ok (-3/16) ∧ a.qxx 3 1 = .ok (-3/16) := by
+  have h : (cholSolve (Ex.pSing4 .none)).toOption.map (fun a =>
+      (a.defect, [a.qxx 1 1, a.qxx 1 3, a.qxx 3 1].map Except.toOption))
+      = some (1, [some (5/16), some (-3/16), some (-3/16)]) := by decide +kernel
+  obtain ⟨a, h1, h2⟩ := Ex.ok_of_toOption h
+  simp only [Prod.mk.injEq, List.map_cons, List.map_nil, List.cons.injEq, and_true] at h2
+  have conv : ∀ (e : Except ErrKind ℚ) (v : ℚ), e.toOption = some v → e = .ok v := by
+    intro e v he
+    cases e with
+    | error _ => simp [Except.toOption] at he
+    | ok x => simp [Except.toOption] at he; rw [he]
+  exact ⟨a, h1, h2.1, conv _ _ h2.2.1, conv _ _ h2.2.2.1, conv _ _ h2.2.2.2⟩
 
 /-- consequences for the adjusted observations (LS8): `Π = A Q Aᵀ` is a symmetric projector with
     diagonal in `[0,1]` -/
